@@ -96,6 +96,44 @@ func SparseAssign(r *Rand, v *spec.Version, p, q int) spec.Assign {
 	return a
 }
 
+// KSparseAssign defines exactly k optional metrics (random values), all others "not defined"; mandatory metrics random.
+func KSparseAssign(r *Rand, v *spec.Version, k int) spec.Assign {
+	a := v.ZeroAssign()
+	var opt []int
+	for m, me := range v.Metrics {
+		if me.Mandatory {
+			a[m] = uint8(r.Intn(len(me.Values)))
+		} else {
+			opt = append(opt, m)
+		}
+	}
+	for _, j := range r.Perm(len(opt)) {
+		if k <= 0 {
+			break
+		}
+		m := opt[j]
+		a[m] = uint8(1 + r.Intn(len(v.Metrics[m].Values)-1))
+		k--
+	}
+	return a
+}
+
+// MixedAssign draws from a mixture that covers both "everything defined" and
+// "a few specific metrics defined, the rest not defined" contexts: 30% uniform,
+// 25% sparse (1-3 in 4), 15% very sparse (1 in 8), 30% exactly k in 1..4 defined.
+func MixedAssign(r *Rand, v *spec.Version) spec.Assign {
+	switch x := r.Intn(20); {
+	case x < 6:
+		return RandomAssign(r, v)
+	case x < 11:
+		return SparseAssign(r, v, 1+r.Intn(3), 4)
+	case x < 14:
+		return SparseAssign(r, v, 1, 8)
+	default:
+		return KSparseAssign(r, v, 1+r.Intn(4))
+	}
+}
+
 // Background returns one of three backgrounds: 0 all-first-value, 1 all-last-value, 2 seeded random.
 func Background(r *Rand, v *spec.Version, kind int) spec.Assign {
 	a := v.ZeroAssign()
